@@ -72,6 +72,14 @@ func (k msgServer) Binding(goCtx context.Context, msg *types.MsgBinding) (*types
 		return nil, types.ErrBindingExists
 	}
 
+	// the account's signature must be over a statement that accepts this very DID at the
+	// claimed time; otherwise a proof captured from another binding can be replayed for
+	// a different DID, or given a fresh timestamp
+	if !strings.Contains(proof.Message, did) || !strings.Contains(proof.Message, fmt.Sprint(proof.Timestamp)) {
+		logger.Error("binding proof message does not name the did and timestamp", "did", did, "message", proof.Message)
+		return nil, types.ErrInvalidBindingProof
+	}
+
 	if err := k.verifyBindingProof(ctx, caip10, proof); err != nil {
 		logger.Error("verify proof failed!!", "accountId", accId, "err", err)
 		return nil, err
